@@ -4,6 +4,7 @@ Facts have the form  a < b  or  a <= b  over normalised expression texts.  ``ent
 under transitivity (a<b, b<=c |- a<c ...) and answers a goal of the same form.
 """
 import ast
+import copy
 
 from .core import norm
 
@@ -66,3 +67,212 @@ def entails(facts, goal):
     if got is None:
         return False
     return got or not gs
+
+
+# ---------------------------------------------------------------------------------------------- named temporaries
+class Locals(object):
+    """Single-assignment locals of one function, looked through on demand.
+
+    ``x = <expr>`` (x bound exactly once in the function, not a parameter) lets a later use of ``x`` be read as
+    ``<expr>`` provided the binding dominates the use and no statement in between can change what ``<expr>``
+    denotes:  a re-binding of a name it reads, a store to an attribute path it reads (or to a prefix of one),
+    and -- when ``<expr>`` is more than a plain ``a.b.c`` path, i.e. computed from the *contents* of objects --
+    a store into / a method call on an object rooted at one of its names.  Attribute paths are treated as
+    fields: stores to different field names do not interfere."""
+
+    def __init__(self, fnode, cfg, keep=()):
+        self.fnode, self.cfg = fnode, cfg
+        self.keep = set(keep)        # names never looked through (e.g. the local holding the next() result)
+        a = fnode.args
+        self.params = set(x.arg for x in a.posonlyargs + a.args + a.kwonlyargs)
+        if a.vararg:
+            self.params.add(a.vararg.arg)
+        if a.kwarg:
+            self.params.add(a.kwarg.arg)
+        self._bind = {}
+        counts = {}
+        from .astutil import stmts_of
+        for st in stmts_of(fnode):
+            for n in _header_nodes(st):
+                if isinstance(n, ast.Name) and isinstance(n.ctx, (ast.Store, ast.Del)):
+                    counts[n.id] = counts.get(n.id, 0) + 1
+                elif isinstance(n, (ast.Import, ast.ImportFrom)):
+                    for al in n.names:
+                        k = (al.asname or al.name).split('.')[0]
+                        counts[k] = counts.get(k, 0) + 2
+                elif isinstance(n, (ast.FunctionDef, ast.AsyncFunctionDef, ast.ClassDef)):
+                    counts[n.name] = counts.get(n.name, 0) + 2
+                elif isinstance(n, (ast.Global, ast.Nonlocal)):
+                    for k in n.names:
+                        counts[k] = counts.get(k, 0) + 2
+            for h in getattr(st, 'handlers', None) or []:
+                if h.name:
+                    counts[h.name] = counts.get(h.name, 0) + 2
+            if isinstance(st, ast.Assign) and len([t for t in st.targets if isinstance(t, ast.Name)]) >= 1:
+                for t in st.targets:
+                    if isinstance(t, ast.Name):
+                        self._bind.setdefault(t.id, []).append(st)
+        self.single = dict((k, v[0]) for k, v in self._bind.items()
+                           if len(v) == 1 and counts.get(k) == 1 and k not in self.params)
+
+    # -- one step ------------------------------------------------------------------------------------------
+    def value_at(self, name, nodes):
+        """The expression local ``name`` stands for at all of the CFG ``nodes`` (or None)."""
+        st = self.single.get(name)
+        if st is None or name in self.keep:
+            return None
+        cfg = self.cfg
+        ids = cfg.nodes_of(st)
+        val = st.value
+        if not ids or isinstance(val, (ast.Lambda, ast.Yield, ast.YieldFrom, ast.Await, ast.NamedExpr)):
+            return None
+        for n in nodes:
+            if n in ids:
+                return None
+            if not cfg.must_pass(ids, cfg.entry, n):
+                return None
+            after = [m for x in ids for m in cfg.succ[x]]
+            mid = (cfg.reach(after, avoid=ids) & cfg.coreach([n], avoid=ids)) - {n}
+            if self._killed(val, mid):
+                return None
+        return val
+
+    def _killed(self, val, mid):
+        cfg = self.cfg
+        if cfg._kills(val, mid):
+            return True
+        pure = _path(val) is not None
+        vpaths = [p for p in (_path(x) for x in _maximal_attrs(val)) if p]
+        vnames = set(x.id for x in ast.walk(val) if isinstance(x, ast.Name))
+        whole = set(x.id for x in ast.walk(val) if isinstance(x, ast.Name) and not _is_attr_base(val, x))
+
+        def related(tp):
+            return any(vp[:len(tp)] == tp or tp[:len(vp)] == vp for vp in vpaths)
+        for nid in mid:
+            nd = cfg.nodes[nid]
+            if nd.stmt is None or nd.kind not in ('stmt', 'head'):
+                continue
+            for x in _header_nodes(nd.stmt):
+                if isinstance(x, (ast.Attribute, ast.Subscript)) and isinstance(x.ctx, (ast.Store, ast.Del)):
+                    tp = _path(x) if isinstance(x, ast.Attribute) else None
+                    if tp and any(vp[:len(tp)] == tp for vp in vpaths):
+                        return True          # a path the value reads (or a prefix of it) is re-bound
+                    if pure or _root(x) not in vnames:
+                        continue
+                    if tp and tp[0] not in whole and not related(tp):
+                        continue             # a different field of the same object
+                    return True              # a store into an object the value was computed from
+                elif isinstance(x, ast.Call) and isinstance(x.func, ast.Attribute) and _root(x.func.value) in vnames:
+                    rp = _path(x.func.value)
+                    if pure:
+                        if rp and any(len(rp) < len(vp) and vp[:len(rp)] == rp for vp in vpaths):
+                            return True      # a method of the owner may re-bind the field
+                        continue
+                    if rp is None or rp[0] in whole or related(rp):
+                        return True          # a method of an object the value was computed from
+        return False
+
+    # -- full resolution -----------------------------------------------------------------------------------
+    def resolve(self, expr, stmt, depth=6, via=None, stop=None):
+        """``expr`` (as evaluated by statement ``stmt``) with single-assignment locals replaced by what they
+        stand for, repeatedly.  ``via`` (a list) collects the binding statements looked through;  ``stop(name)``
+        -> True keeps a name as it is.  Returns a new tree; ``expr`` is not modified."""
+        nodes = [n for n in self.cfg.nodes_of(stmt) if self.cfg.reachable(n)]
+        return self._res(copy.deepcopy(expr), nodes, depth, via, stop)
+
+    def _res(self, e, nodes, depth, via, stop):
+        if depth <= 0 or not nodes:
+            return e
+        outer = self
+
+        class Sub(ast.NodeTransformer):
+            def visit_Name(self_, n):
+                if not isinstance(n.ctx, ast.Load) or (stop is not None and stop(n.id)):
+                    return n
+                v = outer.value_at(n.id, nodes)
+                if v is None:
+                    return n
+                st = outer.single[n.id]
+                if via is not None and st not in via:
+                    via.append(st)
+                ids = [x for x in outer.cfg.nodes_of(st) if outer.cfg.reachable(x)]
+                return outer._res(copy.deepcopy(v), ids, depth - 1, via, stop)
+
+            def visit_Lambda(self_, n):
+                return n
+
+            def _comp(self_, n):
+                return n
+            visit_ListComp = visit_SetComp = visit_DictComp = visit_GeneratorExp = _comp
+        return Sub().visit(e)
+
+    def text(self, expr, stmt, **kw):
+        return norm(self.resolve(expr, stmt, **kw))
+
+    def conds(self, conds, mod):
+        """Path conditions with their tests resolved at the statement that evaluates them."""
+        from .astutil import stmt_of
+        out = []
+        for t, p in conds:
+            st = stmt_of(mod, t)
+            out.append((self.resolve(t, st) if st is not None and self.cfg.nodes_of(st) else t, p))
+        return out
+
+
+def _header_nodes(st):
+    """Nodes evaluated by the statement itself (for compound statements: the header, not the nested blocks)."""
+    if isinstance(st, (ast.FunctionDef, ast.AsyncFunctionDef, ast.ClassDef)):
+        return [st]
+    skip = set()
+    for fld in ('body', 'orelse', 'finalbody', 'handlers', 'cases'):
+        sub = getattr(st, fld, None)
+        if isinstance(sub, list):
+            skip.update(id(x) for x in sub)
+    out = []
+    todo = [st]
+    while todo:
+        n = todo.pop()
+        out.append(n)
+        if isinstance(n, (ast.Lambda,)):
+            continue
+        for c in ast.iter_child_nodes(n):
+            if id(c) not in skip:
+                todo.append(c)
+    return out
+
+
+def _path(e):
+    """('a', 'b', 'c') for a pure Name/Attribute chain, else None."""
+    parts = []
+    while isinstance(e, ast.Attribute):
+        parts.append(e.attr)
+        e = e.value
+    if isinstance(e, ast.Name):
+        parts.append(e.id)
+        return tuple(reversed(parts))
+    return None
+
+
+def _maximal_attrs(tree):
+    """Attribute nodes of ``tree`` that are not themselves the base of a longer attribute chain."""
+    inner = set(id(n.value) for n in ast.walk(tree) if isinstance(n, ast.Attribute))
+    return [n for n in ast.walk(tree) if isinstance(n, ast.Attribute) and id(n) not in inner]
+
+
+def _root(e):
+    while True:
+        if isinstance(e, (ast.Attribute, ast.Subscript, ast.Starred)):
+            e = e.value
+        elif isinstance(e, ast.Call):
+            e = e.func
+        else:
+            break
+    return e.id if isinstance(e, ast.Name) else None
+
+
+def _is_attr_base(tree, name_node):
+    """Is this Name node (inside ``tree``) the base of an attribute chain (``name.x``), as opposed to being used whole?"""
+    for n in ast.walk(tree):
+        if isinstance(n, ast.Attribute) and n.value is name_node:
+            return True
+    return False
